@@ -68,7 +68,12 @@ func (bs *sqlPartStore) PutPart(ctx context.Context, tx database.Tx, partId part
 	chunkIndex := 0
 	for {
 		content, err := ioutils.ReadChunk(reader, chunkSize)
-		if len(content) > 0 {
+		// An empty part is stored as one empty chunk; without any row it would
+		// read back as ErrPartNotFound instead of as zero bytes.
+		if len(content) > 0 || (chunkIndex == 0 && err == io.EOF) {
+			if content == nil {
+				content = []byte{}
+			}
 			partContentEntity := partContent.Entity{
 				Id:         ptrutils.ToPtr(partId),
 				ChunkIndex: chunkIndex,
